@@ -77,10 +77,13 @@ impl Queries {
     /// Convert internally stored bytes into a set of query values and the corresponding batch
     /// opening proof.
     ///
+    /// # Errors
+    /// Returns an error if `num_queries` (which the verifier takes from the proof) is zero, or if
+    /// the values or the opening proof could not be parsed.
+    ///
     /// # Panics
     /// Panics if:
     /// * `domain_size` is not a power of two.
-    /// * `num_queries` is zero.
     /// * `values_per_query` is zero.
     pub fn parse<E, H, V>(
         self,
@@ -94,7 +97,11 @@ impl Queries {
         V: VectorCommitment<H>,
     {
         assert!(domain_size.is_power_of_two(), "domain size must be a power of two");
-        assert!(num_queries > 0, "there must be at least one query");
+        if num_queries == 0 {
+            return Err(DeserializationError::InvalidValue(
+                "there must be at least one query".into(),
+            ));
+        }
         assert!(values_per_query > 0, "a query must contain at least one value");
 
         // make sure we have enough bytes to read the expected number of queries
